@@ -8,8 +8,8 @@ namespace AutoVerif.C18
 
 /-- the case as the harness set it up -/
 structure Case where
-  scenario   : String   -- "close" | "panic" | "panic-close"
-  panicSite  : String   -- "" | logProvider | recoveryProvider | upkeepGetter | eventsProvider | pipeline | stateUpdater
+  scenario   : String   -- "close" | "panic" | "panic-close" | "hold-close"
+  panicSite  : String   -- "" | logProvider | recoveryProvider | upkeepGetter | eventsProvider | pipeline | stateUpdater | resultStoreGC | v2…
   coolDownNs : Nat      -- service.PanicRestartWait
   intervalNs : Nat      -- tick interval of the flow that owns `panicSite`
   latencyNs  : Nat      -- virtual latency of a pipeline call
@@ -23,6 +23,9 @@ structure Obs where
   survived           : Bool   -- the process was still alive at the end of the case
   closeCalled        : Bool
   closeReturned      : Bool
+  closedAtNs         : Nat    -- virtual time between the plugin's creation and the Close call.  0 = the very instant of creation:
+                              -- virtual time only advances when every goroutine is durably blocked, so any value > 0 means the
+                              -- services' start-up had quiesced (every recoverer `settled`) before Close was called
   errNotRunning      : Nat    -- Close errors: recoverer's running flag was false
   errNotStarted      : Nat    -- Close errors: the wrapped service refused to stop because it had not (completely) started
   errOther           : Nat    -- any other Close error
@@ -64,11 +67,12 @@ def spec (cs : Case) (o : Obs) : Bool :=
   panicOk cs o
 
 /-- the leak is exactly what schedule (a) leaves behind, and nothing else is wrong with the case:
-    only not-running errors, one serviceStart and one service loop per such error, no more helpers than the services
+    Close was issued at the very instant of creation (inside the services' start-up — a Close that is refused at any
+    later time is a different defect), only not-running errors, one serviceStart and one service loop per such error, no more helpers than the services
     own, the panic clause (if any) satisfied, and EVERYTHING gone after a second Close (`bubbleEnded`) — which is what
     tells work in flight of the still running services (expected) from anything stuck -/
 def isCloseBeforeRunning (cs : Case) (o : Obs) : Bool :=
-  decide (o.errNotStarted = 0) && decide (o.errNotRunning > 0) && decide (o.errOther = 0) &&
+  decide (o.closedAtNs = 0) && decide (o.errNotStarted = 0) && decide (o.errNotRunning > 0) && decide (o.errOther = 0) &&
   decide (o.leakedServiceStart = o.errNotRunning) && decide (o.leakedService = o.errNotRunning) &&
   decide (o.leakedAux ≤ cs.auxMax) && o.bubbleEnded && panicOk cs o
 
@@ -76,7 +80,7 @@ def isCloseBeforeRunning (cs : Case) (o : Obs) : Bool :=
     one service loop per refused or not-running Close, one serviceStart per not-running Close, and after a second
     Close exactly the refused services — no serviceStart — are still there -/
 def isCloseBeforeServiceStart (cs : Case) (o : Obs) : Bool :=
-  decide (o.errNotStarted > 0) && decide (o.errOther = 0) &&
+  decide (o.closedAtNs = 0) && decide (o.errNotStarted > 0) && decide (o.errOther = 0) &&
   decide (o.leakedService = o.errNotRunning + o.errNotStarted) && decide (o.leakedServiceStart = o.errNotRunning) &&
   decide (o.leakedAux ≤ cs.auxMax) && !o.bubbleEnded &&
   decide (o.after2ndService = o.errNotStarted) && decide (o.after2ndServiceStart = 0) && panicOk cs o
@@ -86,6 +90,7 @@ inductive Verdict
   | ok | panicEscaped | closeDidNotReturn
   | closeBeforeRunning        -- KNOWN FINDING (a)
   | closeBeforeServiceStart   -- KNOWN FINDING (b)
+  | closeRefusedLate          -- a Close issued after start-up had quiesced was refused by a recoverer / service
   | leakAndPanic | closeSignalDropped | leakUnexplained
   | panicNotResumed | panicResumedLate | panicStalledOthers | panicStalledPipeline
 deriving DecidableEq, Repr
@@ -96,6 +101,7 @@ def classify (cs : Case) (o : Obs) : Verdict :=
   else if o.leak then
     if isCloseBeforeRunning cs o then .closeBeforeRunning
     else if isCloseBeforeServiceStart cs o then .closeBeforeServiceStart
+    else if decide (o.closedAtNs > 0) && decide (o.errNotRunning + o.errNotStarted > 0) then .closeRefusedLate
     else if !panicOk cs o then .leakAndPanic
     else if decide (o.leakedServiceStart > o.errNotRunning) && decide (o.leakedService = o.errNotRunning + o.errNotStarted) &&
             decide (o.errOther = 0) && decide (o.leakedInflight = 0) then .closeSignalDropped
@@ -117,6 +123,7 @@ def render (cs : Case) (o : Obs) : Verdict → String
   | .closeDidNotReturn => "close-did-not-return: Close had not returned when the case ended"
   | .closeBeforeRunning => s!"close-before-running: Close returned not-running for {o.errNotRunning} services and they kept running"
   | .closeBeforeServiceStart => s!"close-before-service-start: Close was refused by {o.errNotStarted} services that had not completed their start (not-running for {o.errNotRunning} more); they started afterwards and can no longer be closed"
+  | .closeRefusedLate => s!"close-refused-after-start-up: Close, issued {o.closedAtNs} ns after creation (start-up had quiesced), was refused with not-running by {o.errNotRunning} and with not-started by {o.errNotStarted} services; {o.leakedServiceStart} serviceStart and {o.leakedService} service goroutines remain"
   | .leakAndPanic => s!"leak-and-panic: goroutines remain after Close and the flow calling {cs.panicSite} did not resume in time after a panic"
   | .closeSignalDropped => s!"close-signal-dropped: {o.leakedServiceStart - o.errNotRunning} serviceStart goroutines outlive a Close that reported no error for them"
   | .leakUnexplained => s!"leak-unexplained: after Close {o.leakedServiceStart} serviceStart, {o.leakedService} service, {o.leakedAux} helper and {o.leakedInflight} in-flight goroutines remain (ticking={o.ticking}, bubbleEnded={o.bubbleEnded}) with close errors not-running={o.errNotRunning} not-started={o.errNotStarted} other={o.errOther}"
@@ -131,6 +138,7 @@ def explain (cs : Case) (o : Obs) : String := render cs o (classify cs o)
 def Verdict.tag : Verdict → String
   | .ok => "" | .panicEscaped => "panic-escaped" | .closeDidNotReturn => "close-did-not-return"
   | .closeBeforeRunning => "close-before-running" | .closeBeforeServiceStart => "close-before-service-start"
+  | .closeRefusedLate => "close-refused-after-start-up"
   | .leakAndPanic => "leak-and-panic" | .closeSignalDropped => "close-signal-dropped" | .leakUnexplained => "leak-unexplained"
   | .panicNotResumed => "panic-not-resumed" | .panicResumedLate => "panic-resumed-late" | .panicStalledOthers => "panic-stalled-others"
   | .panicStalledPipeline => "panic-stalled-pipeline"
@@ -148,11 +156,22 @@ def faultSched (fx : Fixes) (site : String) : List Label :=
   else if site == "eventsProvider" then
     (if fx.poll then [.pollPanic]
      else [.pollPanic, .core .gSendStopped, .core .coolElapsed, .core .sRespawn, .core .sSel, .core .gCall, .core .gSendErr, .core .sSel])
+  else if site == "resultStoreGC" then
+    -- escapes the result store's Start: recoverer cool-down, restart (restartable kind: runs again)
+    [.core .gPanic, .core .gSendStopped, .core .coolElapsed, .core .sRespawn, .core .sSel, .core .gCall]
   else if site == "" then []
   else [.tick, .pPanic]
 
-def predict (fx : Fixes) (cs : Case) (nNotRunning nNotStarted : Nat) (closeCalled : Bool) (panics : Nat) : Obs :=
-  let after := if panics > 0 then run fx settledS (faultSched fx cs.panicSite) else some settledS
+/-- the settled instance the fault schedule starts from: the service kind that owns the site -/
+def faultStart (site : String) : State :=
+  if site == "resultStoreGC" then { settledS with core := settledL } else settledS
+
+def predict (fx : Fixes) (cs : Case) (closedAtNs nNotRunning0 nNotStarted0 : Nat) (closeCalled : Bool) (panics : Nat) : Obs :=
+  -- a Close issued after start-up has quiesced finds every recoverer settled: the model has no schedule in which it is
+  -- refused (`close_stops_all_partial`), so no refusals are predicted whatever was observed
+  let nNotRunning := if closedAtNs = 0 then nNotRunning0 else 0
+  let nNotStarted := if closedAtNs = 0 then nNotStarted0 else 0
+  let after := if panics > 0 then run fx (faultStart cs.panicSite) (faultSched fx cs.panicSite) else some settledS
   let survived := match after with
     | some s => !s.crashed
     | none => true
@@ -167,6 +186,7 @@ def predict (fx : Fixes) (cs : Case) (nNotRunning nNotStarted : Nat) (closeCalle
   let ss := nNotRunning * la.serviceStart + nNotStarted * lb.serviceStart + nOk * lo.serviceStart
   let sv := nNotRunning * la.service + nNotStarted * lb.service + nOk * lo.service
   { survived := survived, closeCalled := closeCalled && survived, closeReturned := closeCalled && survived,
+    closedAtNs := closedAtNs,
     errNotRunning := nNotRunning, errNotStarted := nNotStarted, errOther := 0,
     leakedServiceStart := if closeCalled then ss else 0, leakedService := if closeCalled then sv else 0, leakedAux := 0, leakedInflight := 0,
     ticking := closeCalled && decide (sv > 0),
